@@ -8,6 +8,7 @@ package sftp
 // compared before and after.
 
 import (
+	"syscall"
 	"fmt"
 	"os"
 	"path/filepath"
@@ -22,6 +23,13 @@ func vSnapshot(root string) string {
 			return nil
 		}
 		l := fmt.Sprintf("%s %v %d", strings.TrimPrefix(p, root), fi.Mode(), fi.Size())
+		if p != root {
+			// attributes are part of the tree's state (the scratch root's own mtime changes when entries are added, which shows up as the entries themselves)
+			l += fmt.Sprintf(" mtime=%d", fi.ModTime().UnixNano())
+			if st, ok := fi.Sys().(*syscall.Stat_t); ok {
+				l += fmt.Sprintf(" uid=%d gid=%d", st.Uid, st.Gid)
+			}
+		}
 		if fi.Mode().IsRegular() {
 			b, _ := os.ReadFile(p)
 			l += fmt.Sprintf(" %x", b)
